@@ -94,7 +94,7 @@ P = {'id': 'C11',
                'points and configurations the property names are decided by a direct oracle on the real code (std sort, concatenate-and-sort, textbook '
                'two-pointer algorithms) and, for sort cells without a mechanism model, by evaluating the verified checker in Coq on the implementation output. '
                'Extension (36 further theorems): (6) AdvancedRadixSort::msd_radix_sort as coded sorts RadixString (lexicographic byte order) and u32/u64 for '
-               'every insertion threshold, RadixSort::sort_bytes likewise (after fix 50ae740: with the common-prefix skip its nesting depth is at most the number of strings, before it the length of the common prefix); (7) AdvancedRadixSort::sort - whichever strategy is forced or selected adaptively, '
+               'every insertion threshold, RadixSort::sort_bytes likewise (after fix 1989929: with the common-prefix skip its nesting depth is at most the number of strings, before it the length of the common prefix); (7) AdvancedRadixSort::sort - whichever strategy is forced or selected adaptively, '
                'every radix width, threshold and thread count - yields the sorted permutation for u32/u64, and for RadixString under the exact hypothesis that '
                'the sequential LSD path is not taken on strings with colliding 8-byte keys (refutation witness otherwise: the recorded finding); (8) '
                'RadixSort::sort_u32/u64 incl. the chunk + merge path for every thread count and threshold: the slices sorted and the slices merged are the '
